@@ -50,6 +50,7 @@ def check(run: Run, prog: Program, model: Model, tier: str) -> None:
         "Window arithmetic and the verdict over nested values are not decided."
         " Also decided: the key table DictSchema.__call__ builds (flag per entry), the relation of every bound check in every prop combination (not on a lossy image of the value), surplus positions of an exact element list also when length props are carried, the documented float tolerance.")
     run.explanation += " DECL-STORES: on the declaration automaton every accepting path of a well-typed call shape reaches the shape's prop-set. MEMBER-VISITED: on every returning path of visit_list (exact lists) / visit_dict (keyed tables) each declared member is dispatched to, reported missing or absent by a fact. RESULT-ACC: all sequences (<= 3) of add_error / add_errors([]) / add_errors([x, y]), with and without initial errors."
+    run.explanation += " MEMBER-CTX: a member schema is visited with value, path and the caller's own **kwargs - no keyword the enclosing visit added for itself."
     run.rule_text = ("one obligation per (visitor, type, prop) row, per (prop-set, prop) presence, per key-table / shape / "
                      "alternative configuration; non-trivial = predicate extracted from interpreter paths and compared as a relation")
     from ..entry import entry_transparent
@@ -606,8 +607,16 @@ def _member_visited(run: Run, prog: Program, model: Model, vis: str) -> None:
         mem = [tv.items[0].key() for k, tv in tbl.pairs() if not is_ell(k)]
         if mem:
             jobs.append(("visit_dict", f_d, Config(("keys",), {"keys": mk}, label=f"keys={name}"), mem))
+    ctx_only: Set[str] = set()
+    for name, mk in list_shapes(2):
+        toks = mk().items
+        if toks and any(is_ell(x) for x in toks) and any(not is_ell(x) for x in toks):
+            lab = f"elements={name}"
+            ctx_only.add(lab)
+            jobs.append(("visit_list", f_l, Config(("elements",), {"elements": mk}, label=lab), [x.key() for x in toks if not is_ell(x)]))
     for hook, f, cfg, mem in jobs:
         probs: List[str] = []
+        ctx_bad: Set[str] = set()
         n = 0
         for p in run_visit(prog, model, vis, hook, cfg, validator_ctx, unroll=1):
             if p.outcome != "return":
@@ -623,6 +632,17 @@ def _member_visited(run: Run, prog: Program, model: Model, vis: str) -> None:
                                    and e.data["cls"].name in ("MissingElementValidationError", "MissingKeyValidationError"))
             absent = sum(1 for fk, t, b in p.facts if isinstance(t, Term) and t.op == "in" and not b and len(t.args) == 2
                          and isinstance(t.args[1], V) and t.args[1].key() == "value")
+            # ... and the member sees the caller's context only: value, path and the caller's own **kwargs.  A keyword the
+            # container adds for its own bookkeeping (a window offset, say) travels on through **kwargs into the next
+            # nested container, which then reads it as its own
+            for e in p.events:
+                if e.kind == "accept" and e.data["recv"].key() in mem:
+                    for k_, v_ in (e.data.get("kwargs") or {}).items():
+                        if k_ in ("value", "path"):
+                            continue
+                        if k_.startswith("**") and isinstance(v_, V) and v_.key() == "kwargs":
+                            continue
+                        ctx_bad.add(f"member {e.data['recv'].key()} is dispatched with {k_[:30]}={v_.key()[:30] if isinstance(v_, V) else v_}")
             unvisited = [m for m in mem if m not in acc]
             if hook == "visit_list" and missing_reported:
                 continue            # the value ended: this and all later members are missing, one error says so
@@ -630,6 +650,15 @@ def _member_visited(run: Run, prog: Program, model: Model, vis: str) -> None:
                 cond = [("" if b else "not ") + k for k, _, b in p.facts][-1:]
                 probs.append(f"{len(unvisited) - missing_reported - absent} of the members {unvisited} is neither validated nor reported missing "
                              f"on a returning path" + (f" (when {cond[0][:70]})" if cond else ""))
+        cx = f"{vis}.{hook} {cfg.label}: members get the caller's context only"
+        if ctx_bad:
+            run.violated("MEMBER-CTX", cx, f.loc, "; ".join(sorted(ctx_bad))[:300],
+                         witness="schema.list([..., schema.list([schema.int, schema.str])]) rejects [None, [1, 'a']]: the inner list is "
+                                 "validated from the outer window's offset")
+        elif n:
+            run.holds("MEMBER-CTX", cx, f.loc, "value, path and **kwargs", nontrivial=True)
+        if cfg.label in ctx_only:
+            continue            # (window forms: which members are present is LIST-FORMS' business)
         c = f"{vis}.{hook} {cfg.label}: every present member is dispatched to"
         if probs:
             run.violated("MEMBER-VISITED", c, f.loc, "; ".join(sorted(set(probs)))[:300],
@@ -804,4 +833,12 @@ MUTANTS += [
     {"name": "int values compared with isclose", "rule": "CONSTRAINT",
      "edits": [(V_, "    def _validate_value(self, path: PathHolder, value: Any,\n                        expected_val: Any) -> Optional[ValidationError]:\n        if value != expected_val:",
                 "    def _validate_value(self, path: PathHolder, value: Any,\n                        expected_val: Any) -> Optional[ValidationError]:\n        if isinstance(value, int) and not isinstance(value, bool) and not isclose(value, expected_val):\n            return ValueValidationError(path, value, expected_val)\n        if not isinstance(value, int) and value != expected_val:")]},
+]
+
+# round 7: the seeded changes that were missed on first contact, replayed against the current tree
+MUTANTS += [
+    {"name": 'seeded C02-M', "rule": 'MEMBER-CTX',
+     "edits": [('d42/validation/_validator.py', '                           path: PathHolder,\n                           value: List[Any],\n                           elements: List[GenericSchema],\n                           start: int = 0,\n                           **kwargs: Any) -> List[ValidationError]:\n        errors: List[ValidationError] = []\n        for index, element_schema in enumerate(elements):\n            real_index = start + index\n', '                           path: PathHolder,\n                           value: List[Any],\n                           elements: List[GenericSchema],\n                           **kwargs: Any) -> List[ValidationError]:\n        # `start` is the offset of the validated window inside `value`\n        # (non-zero for the tail and body forms only)\n        start = kwargs.get("start", 0)\n        errors: List[ValidationError] = []\n        for index, element_schema in enumerate(elements):\n            real_index = start + index\n'),
+               ('d42/validation/_validator.py', '                errors = self._validate_elements(path, value, elements[1:-1], **kwargs)\n                return result.add_errors(errors)\n            all_errors = []\n            for index, val in enumerate(value):\n                errors = self._validate_elements(path, value, elements[1:-1], index, **kwargs)\n                all_errors.append(errors)\n            all_errors.sort(key=len)\n            return result.add_errors(all_errors[0])\n', '                errors = self._validate_elements(path, value, elements[1:-1], **kwargs)\n                return result.add_errors(errors)\n            all_errors = []\n            for start in range(len(value)):\n                errors = self._validate_elements(path, value, elements[1:-1],\n                                                 **{**kwargs, "start": start})\n                all_errors.append(errors)\n            all_errors.sort(key=len)\n            return result.add_errors(all_errors[0])\n'),
+               ('d42/validation/_validator.py', '        if (len(elements) >= 1) and is_ellipsis(elements[0]):\n            elements = elements[1:]\n            start = max(0, len(value) - len(elements))\n            errors = self._validate_elements(path, value, elements, start, **kwargs)\n            return result.add_errors(errors)\n\n        errors = self._validate_elements(path, value, elements, **kwargs)\n', '        if (len(elements) >= 1) and is_ellipsis(elements[0]):\n            elements = elements[1:]\n            start = max(0, len(value) - len(elements))\n            errors = self._validate_elements(path, value, elements,\n                                             **{**kwargs, "start": start})\n            return result.add_errors(errors)\n\n        errors = self._validate_elements(path, value, elements, **kwargs)\n')]},
 ]
